@@ -514,6 +514,7 @@ func runC04(c *Ctx) {
 	c04RunBombs(h)
 	wg.Wait()
 	// calls that missed the deadline while 8 workers were busy: once more, alone, with a long deadline
+	slowCount, slowest, slowestWhat := 0, 0.0, ""
 	for i, rt := range h.retries {
 		if i >= 40 {
 			r.Note("%d further deadline misses not re-tried", len(h.retries)-40)
@@ -522,9 +523,15 @@ func runC04(c *Ctx) {
 		t0 := time.Now()
 		o := c04CallD(rt.f, 120*time.Second)
 		if o.Class != "TIMEOUT" {
-			r.Note("slow but terminating (%.1fs alone): %s on %s", time.Since(t0).Seconds(), rt.api, c04Show(rt.src))
+			if d := time.Since(t0).Seconds(); d > slowest {
+				slowest, slowestWhat = d, rt.api+" on "+c04Show(rt.src)
+			}
+			slowCount++
 		}
 		h.check(rt.api, rt.src, rt.opts, rt.env, o)
+	}
+	if slowCount > 0 {
+		r.Note("%d calls missed the 5 s deadline while the pool was busy and terminated when re-run alone (slowest %.1fs: %s)", slowCount, slowest, slowestWhat)
 	}
 	if c.Thorough() {
 		c04NativeFuzz(h)
